@@ -826,3 +826,112 @@ Section Contracted.
       intros ro Lr. rewrite Hv by (apply bits_in_range; exact Lr). apply V. exact Lr.
   Qed.
 End Contracted.
+
+(* ------------------------------------------------------------------ separate data dictionaries *)
+(** The datarefs of a network are opaque keys of the data dictionary.  [retag rho n] re-keys them;
+    its value under [data] is the value of n under [data o rho].  With this, gate networks that were
+    each analysed under their own dictionary (Qib.GateNet uses the same small codes for every gate)
+    are put under ONE dictionary, as TensorNetwork.merge does with the (distinct) dataref strings. *)
+Definition retag_t (rho : Z -> Z) (t : tensor) : tensor := mkT (t_id t) (t_shape t) (t_bids t) (rho (t_ref t)).
+Definition retag (rho : Z -> Z) (n : net) : net :=
+  mkN (map (fun kt => (fst kt, retag_t rho (snd kt))) (tensors n)) (bonds n).
+
+Lemma retag_keys rho n : dkeys (tensors (retag rho n)) = dkeys (tensors n).
+Proof. unfold retag, dkeys. cbn [tensors]. rewrite map_map. reflexivity. Qed.
+Lemma retag_get rho n k : dget k (tensors (retag rho n)) = option_map (retag_t rho) (dget k (tensors n)).
+Proof.
+  unfold retag. cbn [tensors]. rewrite (dget_map_val (fun kt => retag_t rho (snd kt))).
+  destruct (dget k (tensors n)); reflexivity.
+Qed.
+Lemma retag_bond_dim rho n b : bond_dim (retag rho n) b = bond_dim n b.
+Proof. unfold bond_dim, retag. cbn [tensors]. induction (tensors n) as [|[k t] T IH]; [reflexivity|]. cbn. rewrite IH. reflexivity. Qed.
+
+Lemma retag_WF rho n : WF n -> WF (retag rho n).
+Proof.
+  intros [W HV]. split; [|rewrite retag_keys; exact HV]. constructor.
+  - rewrite retag_keys. apply (wf_ndT n W).
+  - apply (wf_ndB n W).
+  - intros k t Hin. unfold retag in Hin. cbn [tensors] in Hin. apply in_map_iff in Hin.
+    destruct Hin as [[k0 t0] [E Hin]]. injection E as <- <-. cbn [retag_t t_id t_shape t_bids]. apply (wf_T n W). exact Hin.
+  - apply (wf_B n W).
+  - intros k kb. transitivity (cntT n k kb); [|apply (wf_inc n W)].
+    unfold cntT. rewrite retag_get. destruct (dget k (tensors n)); reflexivity.
+  - intros kb. destruct (wf_dim n W kb) as [d Hd]. exists d. intros k t ax Hin Hn.
+    unfold retag in Hin. cbn [tensors] in Hin. apply in_map_iff in Hin.
+    destruct Hin as [[k0 t0] [E Hin]]. injection E as <- <-. cbn [retag_t t_bids t_shape] in *. eapply Hd; eauto.
+Qed.
+
+Section Retag.
+  Context {K : Scalar} {L : ScalarLaws K}.
+  Local Open Scope K_scope.
+
+  Lemma retag_value rho n (data : Z -> list nat -> K) x :
+    defining_sum (retag rho n) data x = defining_sum n (fun r => data (rho r)) x.
+  Proof.
+    unfold defining_sum.
+    assert (Ekd : bond_kd (retag rho n) = bond_kd n).
+    { unfold bond_kd. cbn [retag bonds]. apply map_ext. intros kb. rewrite retag_bond_dim. reflexivity. }
+    assert (Evb : vbids (retag rho n) = vbids n).
+    { unfold vbids. rewrite retag_get. destruct (dget VT (tensors n)); reflexivity. }
+    rewrite Ekd, Evb. apply ksum_ext_all. intros s. f_equal.
+    unfold retag. rewrite (real_tensors_map (retag_t rho) (tensors n) (bonds n)). rewrite map_map.
+    destruct n; reflexivity.
+  Qed.
+
+  Lemma net_is_matrix_retag rho (data : Z -> list nat -> K) w n (M : BMx K) :
+    net_is_matrix (fun r => data (rho r)) w n M -> net_is_matrix data w (retag rho n) M.
+  Proof.
+    intros [W [S V]]. split; [apply retag_WF; exact W|]. split.
+    - unfold vshape. rewrite retag_get. unfold vshape in S. destruct (dget VT (tensors n)); exact S.
+    - intros ro ci Lr Lc. rewrite retag_value. apply V; assumption.
+  Qed.
+
+  (** gate k of N gates gets the datarefs r*N + k; the common dictionary looks entry z up in the
+      dictionary of gate (z mod N) at reference (z / N) *)
+  Definition tag_of (N k : nat) (r : Z) : Z := (r * Z.of_nat N + Z.of_nat k)%Z.
+  Definition common_data (datas : list (Z -> list nat -> K)) : Z -> list nat -> K :=
+    fun z => nth (Z.to_nat (z mod Z.of_nat (length datas))) datas (fun _ _ => 0) (z / Z.of_nat (length datas))%Z.
+
+  Lemma common_data_tag datas k r : (k < length datas)%nat ->
+    common_data datas (tag_of (length datas) k r) = nth k datas (fun _ _ => 0) r.
+  Proof.
+    intros Hk. unfold common_data, tag_of. set (N := Z.of_nat (length datas)).
+    assert (HN : (0 < N)%Z) by (unfold N; lia).
+    assert (Hm : ((r * N + Z.of_nat k) mod N = Z.of_nat k)%Z).
+    { rewrite Z.add_comm, Z.mod_add by lia. apply Z.mod_small. unfold N. lia. }
+    assert (Hd : ((r * N + Z.of_nat k) / N = r)%Z).
+    { rewrite Z.add_comm, Z.div_add by lia. rewrite Z.div_small by (unfold N; lia). lia. }
+    rewrite Hm, Hd, Nat2Z.id. reflexivity.
+  Qed.
+
+  (** gates analysed one by one, each under its own dictionary, form a circuit under the common one *)
+  Definition tagged_gates (specs : list (ngate * BMx K * (Z -> list nat -> K))) : list (ngate * BMx K) :=
+    map (fun p => let '(k, (g, G, _)) := p in
+                  (mkNG (retag (tag_of (length specs) k) (ng_net g)) (ng_wires g) (ng_ordT g) (ng_ordB g), G))
+        (combine (seq 0 (length specs)) specs).
+
+  Theorem gates_sem_tagged nw (specs : list (ngate * BMx K * (Z -> list nat -> K))) :
+    Forall (fun s => let '(g, G, d) := s in
+                     wires_ok nw (ng_wires g) /\ net_is_matrix d (length (ng_wires g)) (ng_net g) G) specs ->
+    gates_sem (common_data (map snd specs)) nw (tagged_gates specs).
+  Proof.
+    intros H. unfold gates_sem, tagged_gates. apply Forall_forall. intros [g' G'] Hin.
+    apply in_map_iff in Hin. destruct Hin as [[k [[g G] d]] [E Hin]]. injection E as <- <-.
+    cbn [fst snd ng_wires ng_net].
+    pose proof (in_combine_l _ _ _ _ Hin) as Hk. apply in_seq in Hk.
+    pose proof (in_combine_r _ _ _ _ Hin) as Hs.
+    rewrite Forall_forall in H. specialize (H _ Hs). cbn in H. destruct H as [Hw Hn].
+    split; [exact Hw|]. apply net_is_matrix_retag.
+    assert (Ed : nth k (map snd specs) (fun _ _ => 0) = d).
+    { destruct (In_nth_error _ _ Hin) as [i Hi].
+      assert (i < length (combine (seq 0 (length specs)) specs))%nat by (apply nth_error_Some; congruence).
+      rewrite combine_length, seq_length, Nat.min_id in H.
+      pose proof (nth_error_nth _ _ (O, (g, G, d)) Hi) as Hi'. rewrite combine_nth in Hi' by (rewrite seq_length; reflexivity).
+      injection Hi' as E1 E2. rewrite seq_nth in E1 by exact H. cbn in E1. subst i.
+      rewrite (nth_indep _ _ (snd (g, G, d))) by (rewrite map_length; exact H). rewrite map_nth, E2. reflexivity. }
+    destruct Hn as [W [S V]]. split; [exact W|]. split; [exact S|].
+    intros ro ci Lr Lc. rewrite <- (V ro ci Lr Lc). apply defining_sum_data_ext.
+    intros t _ idx. rewrite <- (map_length snd specs). rewrite common_data_tag by (rewrite map_length; lia).
+    rewrite Ed. reflexivity.
+  Qed.
+End Retag.
